@@ -52,17 +52,19 @@ def _call_closest(g_int, v_int, shift, off):
             "raw": np.asarray(out).tolist() if o is None else None}
 
 
-def _call_digitize(grids_int, data_int, shift, again=False):
+def _call_digitize(grids_int, data_int, shift, again=False, dtype=None):
     from black_it.utils.base import digitize_data
 
     grids = [_f(g, shift) for g in grids_int]
     data = _f(data_int, shift).reshape(len(data_int), len(grids_int))
+    if dtype is not None and np.array_equal(data.astype(dtype).astype(np.float64), data):
+        data = data.astype(dtype)           # the same numbers in another dtype (integers, single precision): the grid stays float64
     keep = data.copy()
     try:
         out = digitize_data(data, grids)
     except Exception as e:  # noqa: BLE001
         return {"op": "digitize", "grids": grids_int, "data": data_int, "out": [], "exc": repr(e)}
-    o = _ints(out, shift) if out.shape == data.shape else None
+    o = _ints(np.asarray(out, dtype=np.float64), shift) if out.shape == data.shape else None
     ev = {"op": "digitize", "grids": [list(g) for g in grids_int], "data": [list(r) for r in data_int],
           "out": o if o is not None else []}
     if again:
@@ -165,6 +167,21 @@ def build_traces(tier: str, rng: random.Random):
                 traces.append([ev])
             else:
                 traces.append([ev])
+    # (c') values of another dtype than the grid: integer values on grids of half-integers, single-precision values on grids whose
+    #      elements are not single-precision numbers - the result must be the grid element itself (float64)
+    for k in range(40 if tier == "quick" else 400):
+        cols = rng.randint(1, 3)
+        rows = rng.randint(1, 4)
+        if k % 2 == 0:
+            shift, dtype = -1, rng.choice([np.int64, np.int32])
+            grids = [sorted({2 * rng.randint(-40, 40) + 1 for _ in range(rng.choice([2, 3, 7]))}) for _ in range(cols)]     # odd / 2
+            data = [[2 * rng.randint(-45, 45) for _ in range(cols)] for _ in range(rows)]                                    # integers
+        else:
+            shift, dtype = 0, np.float32
+            big = 2 ** 25
+            grids = [sorted({big + 2 * rng.randint(0, 60) + 1 for _ in range(rng.choice([2, 3, 7]))}) for _ in range(cols)]
+            data = [[big + 4 * rng.randint(-5, 35) for _ in range(cols)] for _ in range(rows)]
+        traces.append([_call_digitize(grids, data, shift, dtype=dtype)])
     # (d) decimal grids as SearchSpace builds them (np.arange), values incl. float mid-points: exact ranks
     n_dec = 150 if tier == "quick" else 2000
     for _ in range(n_dec):
